@@ -16,6 +16,11 @@ Programs are expression trees (JSON):
   ["read", F]                 F in {"A","B"}: two files of the same format, 4 and 3 records of unequal length
   ["chunks", F, k, op|None]   file read with read_chunks(min_chunk_size=k), op applied to each chunk, chunks concatenated
   ["idx", e, op]              e[index];  op = ["slice",a,b,c] | ["mask",[..]] | ["ints",[..]] (list) | ["npints",[..]] (array)
+                              | the same selections in the other forms NumPy accepts for an index (INDEX_FORMS, gen_index_forms):
+                              ["lmask",[..]] Python list of bool | ["lnpmask",[..]] list of numpy bools | ["tupmask",[..]] 1-tuple
+                              holding a mask array | ["npints32"|"npints8"|"npuints8",[..]] integer arrays of a narrow dtype |
+                              ["lnpints",[..]] list of numpy integers | ["range",a,b,c] a range object (understood by the
+                              evaluator, not enumerated: not one of the index kinds the property quantifies over)
   ["touch", e, field]         read-only access of a field (fills the lazy cache), table unchanged
                               (["touch", e, field, "if-parsable"]: a parse error of the field is not a failure)
   ["mat", e]                  write e (checked) and go on with the same object (compaction happens in place)
@@ -299,7 +304,27 @@ def build_index(op):
         return list(op[1])
     if k == "npints":
         return np.array(op[1], dtype=int)
+    # the other forms of the same selections (scope extension 'index forms')
+    if k == "lmask":
+        return [bool(x) for x in op[1]]
+    if k == "lnpmask":
+        return [np.bool_(x) for x in op[1]]
+    if k == "tupmask":
+        return (np.array(op[1], dtype=bool),)
+    if k in ("npints32", "npints8", "npuints8"):
+        return np.array(op[1], dtype={"npints32": np.int32, "npints8": np.int8, "npuints8": np.uint8}[k])
+    if k == "lnpints":
+        return [np.int64(x) for x in op[1]]
+    if k == "range":
+        return range(op[1], op[2], op[3])
     raise ValueError(op)
+
+
+# index forms: kind of op -> (what the values are, class of the form in the signatures)
+INDEX_FORMS = {"lmask": ("mask", "mask-as-list"), "lnpmask": ("mask", "mask-as-list"), "tupmask": ("mask", "mask-in-tuple"),
+               "npints32": ("ints", "int-array-of-narrow-dtype"), "npints8": ("ints", "int-array-of-narrow-dtype"),
+               "npuints8": ("ints", "int-array-of-narrow-dtype"), "lnpints": ("ints", "list-of-numpy-ints"),
+               "range": ("range", "range-object")}
 
 
 def op_family(op):
@@ -308,8 +333,28 @@ def op_family(op):
     return op[0]
 
 
+def form_order(op, m):
+    """NumPy's meaning of an index in one of the INDEX_FORMS on a sequence of length m, spelled out in plain Python:
+    a boolean mask (in whatever container) selects the positions where it is True, integers select those positions
+    (negative: from the end), a range its members"""
+    what = INDEX_FORMS[op[0]][0]
+    if what == "mask":
+        if len(op[1]) != m:
+            raise ValueError("mask of length %d for %d rows" % (len(op[1]), m))
+        return [i for i, b in enumerate(op[1]) if b]
+    if what == "ints":
+        if any(not -m <= j < m for j in op[1]):
+            raise ValueError("index out of range: %r for %d rows" % (op[1], m))
+        return [j if j >= 0 else m + j for j in op[1]]
+    if any(not 0 <= j < m for j in range(op[1], op[2], op[3])):
+        raise ValueError("range out of bounds: %r for %d rows" % (op[1:], m))
+    return list(range(op[1], op[2], op[3]))
+
+
 def apply_model(rows, op):
     import numpy as np
+    if op[0] in INDEX_FORMS:
+        return [rows[j] for j in form_order(op, len(rows))]
     order = np.arange(len(rows))[build_index(op)]
     return [rows[int(j)] for j in np.atleast_1d(order)]
 
@@ -775,6 +820,13 @@ def column_signature(cx, program, what):
     return "trailing-columns:%s:%s:%s" % (cx.spec["columns"], path, what)
 
 
+def index_form_signature(cx, group, what):
+    """failures of the index-form scope (gen_index_forms): index-form:<class of the form>:<symptom>:<reader class> - the
+    selection code is shared by all lazily read text formats (one extractor class) and separate for BAM, and does not
+    depend on the line ending or on where in the program the index is used, so neither is in the signature"""
+    return "index-form:%s:%s:%s" % (group.split(":")[1], what, "bam" if cx.family == "bam" else "lazy-text")
+
+
 def run_program(cx, group, program):
     """-> None if the contract holds, else (signature, message).
     Signatures: symptoms that do not depend on the program shape (line terminator lost, text canonicalised, file
@@ -794,6 +846,8 @@ def run_program(cx, group, program):
         except Exception as e:
             raise EvalError("write", e)
     except Violation as v:
+        if group.startswith("index-form:") and v.kind not in ("crlf-newline-dropped", "crlf-rewritten-to-lf"):
+            return index_form_signature(cx, group, v.kind), v.message
         if "columns" in cx.spec:
             return column_signature(cx, program, v.kind + (":" + v.field if v.field else "")), v.message
         if group.split(":")[0] in OWN_SIGNATURE_GROUPS:
@@ -812,6 +866,8 @@ def run_program(cx, group, program):
         msg = repr(e.exc)[:400]
         if e.where == "read":
             return "read:exception:%s:%s:%s" % (tname, fam, cx.eol), msg
+        if group.startswith("index-form:"):
+            return index_form_signature(cx, group, "exception-in-%s:%s" % (e.where.split(":")[0], tname)), msg
         if "columns" in cx.spec and e.where != "cat":
             return column_signature(cx, program, "exception-in-%s:%s" % (e.where, tname)), msg
         if group.split(":")[0] in OWN_SIGNATURE_GROUPS:
@@ -1168,6 +1224,89 @@ def gen_history_bam():
             yield "selection-history:then-select", ["idx", e, REV]
 
 
+def form_variants(op):
+    """the selection of a ["mask", ..] / ["ints", ..] / ["npints", ..] op in every other form (INDEX_FORMS)"""
+    if op[0] == "mask":
+        return [[k, list(op[1])] for k in ("lmask", "lnpmask", "tupmask")]
+    v = list(op[1])
+    out = [["npints32", v], ["lnpints", v], ["npints8", v]]
+    if all(j >= 0 for j in v):
+        out.append(["npuints8", v])
+    return out
+
+
+def _alt(m, first=True):
+    return [bool((i + 1) % 2) == first for i in range(m)]
+
+
+def gen_index_forms(spec, level, replace=True):
+    """scope extension 'index forms': NumPy accepts the same selection in several forms - a boolean mask as an array, as
+    a Python list of bool (mask.tolist(), a list comprehension), as a list of numpy bools, inside a 1-tuple; row numbers
+    as a list, as an array of any integer dtype, as a list of numpy integers, as a range - and a table must select the same
+    records for all of them.  Every mask / integer selection of the main enumeration in every other form: directly on the
+    table read, on a selection (at the end and in the middle of a chain of selections, also with the intermediate tables
+    written), on a table whose fields were read before, as operands of a concatenation and on its result, and before /
+    after a field replacement.  The oracle (form_order) spells the meaning of each form out in plain Python."""
+    m = NA
+    G = lambda f, where: "index-form:%s:%s" % (INDEX_FORMS[f[0]][1], where)
+    masks = [_alt(m), _alt(m, False), [True] * m, [False] * m, [False] * (m - 1) + [True], [True] + [False] * (m - 1)]
+    intlists = [[m - 1, 0, 0], [-1, 0], [], [1, 1, 1], list(range(m)) * 2, [-m, -1, m - 1]]
+    if level == 0:
+        masks, intlists = masks[:4], intlists[:3]
+    followers = [REV] if level == 0 else [REV, S(1, None), S(None, None, 2)]
+    forms = [f for x in masks for f in form_variants(["mask", x])] + [f for v in intlists for f in form_variants(["ints", v])]
+    for f in forms:
+        yield G(f, "direct"), ["idx", A_, f]
+        for op2 in followers:
+            yield G(f, "then-select"), ["idx", ["idx", A_, f], op2]
+        if level == 2:
+            n1 = len(form_order(f, m))
+            if n1:
+                for g in form_variants(["mask", _alt(n1)]) + form_variants(["ints", [n1 - 1, 0]]):
+                    yield G(g, "twice"), ["idx", ["idx", A_, f], g]
+    # on a selection: last in the chain, in the middle, with every intermediate table written
+    firsts = core_ops(m) if level else [REV, ["ints", [m - 1, 0, 0]], S(1, None), ["mask", _alt(m)]]
+    if level == 2:
+        firsts = firsts + [S(None, None), ["npints", list(range(m)) * 2], ["ints", [1]]]
+    for op1 in firsts:
+        m1 = len(apply_model(list(range(m)), op1))
+        seconds = [["mask", _alt(m1)], ["ints", [m1 - 1, 0, 0]]]
+        if level:
+            seconds += [["mask", _alt(m1, False)], ["ints", [-1, 0]]]
+        forms2 = [f for op in seconds for f in form_variants(op)]
+        for f in forms2:
+            yield G(f, "after-select"), ["idx", ["idx", A_, op1], f]
+            for op2 in followers:
+                yield G(f, "between-selects"), ["idx", ["idx", ["idx", A_, op1], f], op2]
+            if level:
+                yield G(f, "between-selects-written"), chain_expr(A_, [op1, f, REV], mat=True)
+    # one mask and one list of row numbers in every form: written and used further, fields read before, concatenations,
+    # replacements
+    reps = form_variants(["mask", [True, False, True, True]]) + form_variants(["ints", [-1, 0, 0]]) + [["npuints8", [m - 1, 0, 0]]]
+    fs = history_alphabet(spec, 2, 1)[1][0] if replace else None
+    for f in reps:
+        what = INDEX_FORMS[f[0]][0]
+        yield G(f, "written-then-select"), ["idx", ["mat", ["idx", A_, f]], REV]
+        yield G(f, "after-field-access"), ["idx", _touch_all(A_, spec["touch"]), f]
+        f3 = [f[0], f[1][1:]] if what == "mask" else [f[0], [j % (m - 1) if j >= 0 else j for j in f[1]]]
+        yield G(f3, "after-field-access"), ["idx", _touch_all(["idx", A_, S(1, None)], spec["touch"][:1]), f3]
+        if not replace:
+            continue        # BAM: the main enumeration has neither concatenations nor replacements of BAM tables
+        g = [f[0], f[1][1:]] if what == "mask" else [f[0], [j % NB if j >= 0 else j for j in f[1]]]
+        yield G(f, "concat-operands"), ["cat", [["idx", A_, f], ["idx", B_, g], ["idx", A_, f]]]
+        h = [f[0], _alt(NA + NB)] if what == "mask" else [f[0], f[1] + [NA]]
+        yield G(h, "select-from-concat"), ["idx", ["cat", [A_, B_]], h]
+        yield G(f, "select-then-replace"), ["rep", ["idx", A_, f], fs]
+        yield G(f, "select-then-replace"), ["rep", ["mat", ["idx", A_, f]], fs]
+        yield G(f, "replace-then-select"), ["idx", ["rep", A_, fs], f]
+        yield G(f, "select-replace-select"), ["idx", ["rep", ["idx", A_, f], fs], REV]
+        if level:
+            others = [x for x in _free_fields(spec) if x not in fs]
+            kinds = dict(spec["fields"])
+            yield G(f, "read-select-replace"), ["rep", ["idx", _touch_all(A_, others, kinds), f], fs]
+            yield G(f, "select-read-replace"), ["rep", _touch_all(["idx", A_, f], others, kinds), fs]
+
+
 def _restricted(spec, n):
     """copy of spec in which only n fields (an integer column, the last and the middle replaceable column) count as
     replaceable: for the generators that are quadratic in the number of fields"""
@@ -1316,8 +1455,10 @@ def programs(variant, tier, eol):
         level = QUICK_LEVEL.get(variant, 0) if eol == "lf" else 0
     hist_level = (THOROUGH_LEVEL.get(variant, 1) if eol == "lf" else 0) if tier == "thorough" else \
         (QUICK_HISTORY_LEVEL.get(variant, 0) if eol == "lf" else 0)
+    form_level = (THOROUGH_LEVEL.get(variant, 1) if eol == "lf" else 0) if tier == "thorough" else (0 if eol == "lf" else None)
     if variant == "bam":
         yield from gen_history_bam()
+        yield from gen_index_forms(spec, form_level, replace=False)
         yield from gen_select(level)
         yield from gen_access(spec, level)
         for op in core_ops(NA):
@@ -1351,9 +1492,14 @@ def programs(variant, tier, eol):
         yield from gen_replace(spec, 0, 0)
         yield from gen_history(spec, 0)
         yield from gen_cached(spec, 0)
+        for g, e in gen_index_forms(spec, 0):       # every form directly and after a selection (vcf2 / vcf_noinfo: all places)
+            if g.endswith((":direct", ":after-select")):
+                yield g, e
         return
     # first, because they are few and the enumeration of a format is cut from the end when the machine is slow
     yield from gen_history(spec, hist_level)
+    if form_level is not None:
+        yield from gen_index_forms(spec, form_level)
     if eol == "lf" or tier == "thorough":
         yield from gen_cached(spec, level if (tier == "thorough" and eol == "lf") else 0)
     yield from gen_select(level)
@@ -1401,7 +1547,10 @@ RULE = ("exhaustive over expression trees of selections (slice / step / boolean 
         "selections and concatenations; with other fields read before / after the replacement or attribute assignment, all "
         "others or exactly one), histories of writes / field reads / replace-and-write on one selection object (3-4 steps) "
         "per format and line ending; the same (reduced) for files with every number of trailing columns around the "
-        "boundaries of the 'rest of line' code (VCF 0-3 samples / no FORMAT, SAM 0 / 1 tags, BED extra columns); a case is one (format, line ending, program); distinct = "
+        "boundaries of the 'rest of line' code (VCF 0-3 samples / no FORMAT, SAM 0 / 1 tags, BED extra columns); every mask / "
+        "row-number selection also in the other forms NumPy accepts for an index (mask as Python list of bool / list of numpy "
+        "bools / in a 1-tuple, row numbers as int32 / int8 / uint8 array / list of numpy integers) at every place of a program; "
+        "a case is one (format, line ending, program); distinct = "
         "distinct (format, line ending, program); every case except the bare read is non-trivial")
 
 
@@ -1430,6 +1579,13 @@ def run(tier="quick", seed=0):
                                       "BED3; per file: selections to depth 2, concatenations of 2 and 3 operands, every single field and "
                                       "pair replaced around selections / concatenations, cached-field and history programs (reduced "
                                       "level; thorough: standard level), chunked reads; variants: %r" % (COLUMN_VARIANTS,),
+                  "index_forms": "forms %r of 4 (standard and deep: 6) masks and 3 (6) row-number lists: directly on the table, followed "
+                                 "by 1 (3) selections, after each of 4 (8; deep 11) selections and between two selections (standard: also "
+                                 "with every intermediate table written; deep: two such indices in a row), on a written selection, after "
+                                 "field reads, as concatenation operands / on a concatenation, before / after / between a replacement and "
+                                 "a selection (standard: with the other fields read before); all text formats except GTF, and BAM "
+                                 "(selections only); quick: reduced level, LF only; thorough: the level of the format, CRLF reduced"
+                                 % (sorted(k for k in INDEX_FORMS if k != "range"),),
                   "levels (0 reduced, 1 standard, 2 deep)": "quick: %r for lf, 0 for crlf (6 representative formats); thorough: %r for lf, 1 for crlf"
                   % (QUICK_LEVEL, THOROUGH_LEVEL)}
     warnings.filterwarnings("ignore")
